@@ -95,7 +95,7 @@ pub fn run_c01(tier: &str, seed: u64, out: &mut Out) {
     for b in 0..=255u8 {
         c01_value(out, &Value::bytes(vec![b]));
     }
-    let step = if tier == "thorough" { 1 } else { 257 };
+    let step = if tier == "thorough" { 5 } else { 257 };
     let mut c = 0u32;
     while c <= 0x10ffff {
         if let Some(ch) = char::from_u32(c) {
